@@ -277,6 +277,144 @@ def multi_table_oracle(Hs: list, tmp: Path, tag: str) -> list:
     return fails
 
 
+def list_form_oracle(calls: list, tmp: Path, tag: str) -> list:
+    """set_cell_border with a LIST of sides (and an explicit length) is the same as one call per side, in row/column
+    and in A1 notation; implementation only.  calls = [[r, c, [sides], width, length], ...]"""
+    from numbers_parser import RGB, Border, Document
+    from numbers_parser.xrefs import xl_rowcol_to_cell
+    try:
+        snaps = []
+        for form in ("list", "list-a1", "single"):
+            doc, t = new_table()
+            for r, c, sides, w, ln in calls:
+                b = Border(float(w), RGB(0, 0, 0), "solid")
+                if form == "list":
+                    t.set_cell_border(r, c, list(sides), b, ln)
+                elif form == "list-a1":
+                    t.set_cell_border(xl_rowcol_to_cell(r, c), list(sides), b, ln)
+                else:
+                    for sd in sides:
+                        t.set_cell_border(r, c, sd, b, ln)
+            mem = snapshot(t)
+            p = tmp / f"{tag}_{form}.numbers"
+            doc.save(p)
+            snaps.append((form, mem, snapshot(Document(p).sheets[0].tables[0])))
+    except Exception as e:  # noqa: BLE001
+        return [("border-history-raises", f"list form of side: {type(e).__name__}: {e}")]
+    fails = []
+    _, ref_mem, ref_rel = snaps[-1]
+    for form, mem, rel in snaps[:-1]:
+        if mem != ref_mem:
+            fails.append(("side-list-differs-from-single-calls", f"{form}, open document: " + first_diff(mem, ref_mem) + " (one call per side)"))
+        elif rel != ref_rel:
+            fails.append(("side-list-differs-from-single-calls", f"{form}, reopened file: " + first_diff(rel, ref_rel) + " (one call per side)"))
+    return fails
+
+
+def last_drawn_edges(t) -> list:
+    """Snapshot indices of the edges whose border has the highest stroke order in the table."""
+    best, out = None, []
+    for r in range(t.num_rows):
+        for c in range(t.num_cols):
+            cell = t.cell(r, c)
+            if type(cell).__name__ == "MergedCell" or cell.is_merged:
+                continue      # which sides a merged cell reports is the library's own convention
+            cb = cell.border
+            for si, sd in enumerate(("top", "right", "bottom", "left")):
+                b = getattr(cb, sd)
+                o = getattr(b, "_order", None) if b is not None else None
+                if o is None:
+                    continue
+                if best is None or o > best:
+                    best, out = o, []
+                if o == best:
+                    out.append((r * t.num_cols + c) * 4 + si)
+    return out
+
+
+def fixture_border_oracle(name: str, sheet: int, table: int, strokes: list, tmp: Path, tag: str) -> list:
+    """New strokes on a table of a document written by Numbers that already has borders (its stroke orders and
+    max_order are whatever Numbers left): the stroked edges report the new border, on the open document and after
+    save + reopen, and the two agree on every edge.  strokes = [[r, c, side, width, length], ...]"""
+    from numbers_parser import RGB, Border, Document
+    path = common.REPO / "tests" / "data" / name
+    try:
+        doc = Document(str(path))
+        t = doc.sheets[sheet].tables[table]
+        for k, (r, c, side, w, ln) in enumerate(strokes):
+            t.set_cell_border(r, c, side, Border(float(w), RGB(200, k % 200, 7), "solid"), ln)
+        mem = snapshot(t)
+        p = tmp / f"{tag}_fx.numbers"
+        doc.save(p)
+        rel = snapshot(Document(p).sheets[sheet].tables[table])
+    except Exception as e:  # noqa: BLE001
+        return [("border-history-raises", f"{name}: {type(e).__name__}: {e}")]
+    fails = []
+    nc = t.num_cols
+    if mem != rel:
+        i = next(i for i, (x, y) in enumerate(zip(mem, rel)) if x != y)
+        fails.append(("fixture-borders:open-differs-from-reload", f"{name} sheet {sheet} table {table}: {key_name(i, nc)}: {mem[i]} on the open document, {rel[i]} after reopening"))
+    # the last stroke drawn wins on its own edges
+    r, c, side, w, ln = strokes[-1]
+    want = border_tok(Border(float(w), RGB(200, (len(strokes) - 1) % 200, 7), "solid"))
+    for j in range(ln):
+        rr, cc = (r, c + j) if side in ("top", "bottom") else (r + j, c)
+        if rr >= t.num_rows or cc >= t.num_cols:
+            break
+        cell = t.cell(rr, cc)
+        if type(cell).__name__ == "MergedCell" or cell.is_merged:
+            continue
+        i = (rr * nc + cc) * 4 + SIDES.index(side)
+        for where, snap in (("open document", mem), ("reopened file", rel)):
+            if snap[i] != want:
+                fails.append(("fixture-borders:last-stroke-not-reported", f"{name} sheet {sheet} table {table}, {where}: {key_name(i, nc)} reports {snap[i]}, drawn last: {want}"))
+                return fails
+    return fails
+
+
+def merge_border_oracle(H: list, merges: list, tmp: Path, tag: str) -> list:
+    """Strokes, then merged ranges (implementation only; the model has no merged cells): merging draws nothing and
+    erases nothing - every cell outside the merged rectangles reports the borders it reported before the merge, and
+    the open document and the reopened file report the same borders everywhere."""
+    from numbers_parser import RGB, Border, Document
+    S = strokes_only(H)
+    try:
+        doc, t = new_table()
+        objs = {}
+        for _, side, r, c, ln, oi, (w, col, pat) in S:
+            if oi not in objs:
+                objs[oi] = Border(float(w), RGB(*col), pat)
+            t.set_cell_border(r, c, side, objs[oi], ln)
+        before = snapshot(t)
+        for (r0, c0, r1, c1) in merges:
+            from numbers_parser.xrefs import xl_range
+            t.merge_cells(xl_range(r0, c0, r1, c1))
+        mem = snapshot(t)
+        p = tmp / f"{tag}_mb.numbers"
+        doc.save(p)
+        rel = snapshot(Document(p).sheets[0].tables[0])
+    except Exception as e:  # noqa: BLE001
+        return [("border-history-raises", f"merge after strokes: {type(e).__name__}: {e}")]
+    fails = []
+    if mem != rel:
+        fails.append(("merge-borders:open-differs-from-reload", "after merging " + str(merges) + ": " + first_diff(mem, rel) + " (open document vs reopened file)"))
+    inner = set()
+    for (r0, c0, r1, c1) in merges:
+        for r in range(r0, r1 + 1):
+            for c in range(c0, c1 + 1):
+                # which sides of a cell INSIDE a merged rectangle report a stroke is the library's own convention
+                # (the anchor reports top and left only); the unchanged-edge clause is stated for cells outside
+                base = (r * NC + c) * 4
+                inner.update((base, base + 1, base + 2, base + 3))
+    for name, snap in (("open document", mem), ("reopened file", rel)):
+        bad = [i for i in range(len(before)) if i not in inner and snap[i] != before[i]]
+        if bad:
+            i = bad[0]
+            fails.append(("merge-borders:edge-outside-merge-changed", f"{name}: {key_name(i)}: {before[i]} before merging {merges}, {snap[i]} after"))
+            break
+    return fails
+
+
 # ---------------------------------------------------------------- borders: generator
 def gen_border_history(rng, n_strokes=None, nr=NR, nc=NC):
     H = []
@@ -453,6 +591,74 @@ def run(ctx: Ctx) -> int:
         for sig, detail in multi_table_oracle(Hs, ctx.tmp, f"mt{i}"):
             ctx.oracle_fail(sig, {"kind": "borders-multi-table", "histories": Hs}, detail)
 
+    # ---- A4. merging after strokes keeps the borders (implementation only)
+    for i in range(12 if ctx.quick else 150):
+        H = strokes_only(gen_border_history(rng, n_strokes=rng.randrange(1, 7)))
+        merges = []
+        for _ in range(rng.choice([1, 1, 2])):
+            r0, c0 = rng.randrange(NR - 1), rng.randrange(NC - 1)
+            r1, c1 = min(NR - 1, r0 + rng.randrange(0, 3)), min(NC - 1, c0 + rng.randrange(0, 3))
+            if (r0, c0) != (r1, c1) and all(r1 < a or r0 > c or c1 < b or c0 > d for (a, b, c, d) in merges):
+                merges.append((r0, c0, r1, c1))
+        if i % 3 == 0 and H:
+            # a rectangle that starts at a stroked cell
+            r, c = H[0][2], H[0][3]
+            merges = [(r, c, min(NR - 1, r + 1), min(NC - 1, c + 1))] if (r, c) != (min(NR - 1, r + 1), min(NC - 1, c + 1)) else merges
+        if not merges:
+            continue
+        ctx.count("oracle-merge-keeps-borders")
+        ctx.nontrivial(("merge-borders", json.dumps([H, merges])))
+        for sig, detail in merge_border_oracle(H, merges, ctx.tmp, f"mb{i}"):
+            ctx.oracle_fail(sig, {"kind": "borders-merge", "history": H, "merges": [list(m) for m in merges]}, detail)
+
+    # ---- A5. list form of `side`; new strokes on documents written by Numbers (implementation only)
+    for i in range(8 if ctx.quick else 100):
+        calls = []
+        for _ in range(rng.randrange(1, 4)):
+            r, c = rng.randrange(NR), rng.randrange(NC)
+            sides = rng.sample(SIDES, rng.randrange(1, 5))
+            ln = rng.randrange(1, 5)
+            room = min([NC - c if sd in ("top", "bottom") else NR - r for sd in sides])
+            calls.append([r, c, sides, rng.choice([1.0, 2.0, 3.0]), max(1, min(ln, room))])
+        ctx.count("oracle-side-list")
+        ctx.nontrivial(("side-list", json.dumps(calls)))
+        for sig, detail in list_form_oracle(calls, ctx.tmp, f"sl{i}"):
+            ctx.oracle_fail(sig, {"kind": "borders-side-list", "calls": calls}, detail)
+    from numbers_parser import Document
+    for name in (["test-styles.numbers"] if ctx.quick else ["test-styles.numbers", "issue-44.numbers", "test-5.numbers", "issue-7.numbers"]):
+        if not (common.REPO / "tests" / "data" / name).exists():
+            continue
+        try:
+            d0 = Document(str(common.REPO / "tests" / "data" / name))
+            shapes = [(si, ti, t.num_rows, t.num_cols, snapshot(t), last_drawn_edges(t)) for si, sh in enumerate(d0.sheets) for ti, t in enumerate(sh.tables)
+                      if t.num_rows * t.num_cols <= 600]
+        except Exception:  # noqa: BLE001
+            continue
+        for si, ti, nr, nc_, snap0, newest in shapes:
+            edged = [i for i, x in enumerate(snap0) if x != "-"]
+            if not edged:
+                continue
+            for k in range(3 if ctx.quick else 12):
+                strokes = []
+                for j in range(rng.randrange(1, 4)):
+                    # mostly over an edge that already carries a border; the first round starts on the edge Numbers drew last
+                    # (its order is the highest in the table, possibly equal to the recorded max_order)
+                    i = rng.choice(edged) if rng.random() < 0.8 else rng.randrange(len(snap0))
+                    if k == 0 and j == 0 and newest:
+                        i = newest[0]
+                        strokes = []          # ... and is the only stroke of that round, so that it is also the last one drawn
+                    cell, sd = divmod(i, 4)
+                    r, c = divmod(cell, nc_)
+                    side = SIDES[sd]
+                    room = nc_ - c if side in ("top", "bottom") else nr - r
+                    strokes.append([r, c, side, rng.choice([0.5, 2.0, 3.0]), rng.randrange(1, min(3, room) + 1)])
+                    if k == 0 and newest:
+                        break
+                ctx.count("oracle-fixture-borders")
+                ctx.nontrivial(("fixture-borders", name, si, ti, json.dumps(strokes)))
+                for sig, detail in fixture_border_oracle(name, si, ti, strokes, ctx.tmp, f"fb{si}_{ti}_{k}"):
+                    ctx.oracle_fail(sig, {"kind": "borders-fixture", "fixture": name, "sheet": si, "table": ti, "strokes": strokes}, detail)
+
     # ---- B. styles
     from . import c15_styles
     c15_styles.run_styles(ctx, exe)
@@ -491,6 +697,12 @@ def replay(path: str) -> int:
         with tempfile.TemporaryDirectory() as td:
             if case.get("kind") == "borders":
                 fails = border_oracle(case["history"], Path(td), "replay")
+            elif case.get("kind") == "borders-side-list":
+                fails = list_form_oracle(case["calls"], Path(td), "replay")
+            elif case.get("kind") == "borders-fixture":
+                fails = fixture_border_oracle(case["fixture"], case["sheet"], case["table"], case["strokes"], Path(td), "replay")
+            elif case.get("kind") == "borders-merge":
+                fails = merge_border_oracle(case["history"], [tuple(m) for m in case["merges"]], Path(td), "replay")
             elif case.get("kind") == "borders-multi-table":
                 fails = multi_table_oracle(case["histories"], Path(td), "replay")
             elif case.get("kind") == "borders-writes":
